@@ -38,6 +38,10 @@ def fresh_classes():
         pass
 
     class TB(TA):
+        def __init__(self, *args, **kwargs):
+            sg.clear_true_singleton()   # a constructor that resets the registry first (re-entrant use of the module)
+            Rec.__init__(self, *args, **kwargs)
+
         def __bool__(self):             # an instance that is falsy: identity, not truth value, must decide
             return False
 
